@@ -297,7 +297,38 @@ def _sld(ctx):
        s_n, nonzero=[q[0] * mass_sym("Fe") + q[1] * mass_sym("O")])
     ne = I.call(ior, [dict(comp)], {"density": rho, "energy": h * c / lam * 10 ** 7})
     eq(ctx, "R3", "index of refraction: energy= agrees with wavelength=", ne, nv, s_n, nonzero=[q[0] * mass_sym("Fe") + q[1] * mass_sym("O")])
-    ctx.floor("R3", 22)
+    # thick-mirror reflectivity: the Fresnel form over an opaque index of refraction, and its boundary values
+    s_m = fsite(ctx, "xsf.mirror_reflectivity")
+    nref = sp.Symbol("n_re", positive=True) - sp.I * sp.Symbol("n_im", nonnegative=True)
+    I.stubs["xsf.index_of_refraction"] = lambda I_, a_, k_: Vec([nref])
+    try:
+        mr = I.global_name("xsf", "mirror_reflectivity")
+        th = sp.Symbol("theta_deg", positive=True)
+
+        def refl(angle, rough=None):
+            kw_ = {"compound": None, "density": rho, "wavelength": lam, "angle": angle}
+            if rough is not None:
+                kw_["roughness"] = rough
+            v = I.call(mr, [], kw_)
+            while isinstance(v, Vec) and len(v) == 1:
+                v = v.items[0]
+            return v
+        k0 = 2 * sp.pi / lam
+        thr = th * sp.pi / 180
+        ki, kf = k0 * sp.sin(thr), k0 * sp.sqrt(nref ** 2 - sp.cos(thr) ** 2)
+        eq(ctx, "R3", "mirror reflectivity = |(ki - kf)/(ki + kf)|^2 with ki = k sin(theta), kf = k sqrt(n^2 - cos^2(theta))",
+           refl(th), sp.Abs((ki - kf) / (ki + kf)) ** 2, s_m)
+        sg = sp.Symbol("sigma_r", positive=True)
+        eq(ctx, "R3", "mirror reflectivity with roughness: Fresnel amplitude times exp(-2 ki kf sigma^2)",
+           refl(th, sg), sp.Abs((ki - kf) / (ki + kf) * sp.exp(-2 * ki * kf * sg ** 2)) ** 2, s_m)
+        r0 = raises(lambda: refl(sp.Integer(0)))
+        v0 = refl(sp.Integer(0)) if r0 is None else None
+        ok0 = r0 is None and v0 is not None and not sp.sympify(v0).has(sp.nan, sp.zoo) and sp.simplify(sp.sympify(v0) - 1) == 0
+        ctx.check(ok0, "R3", "mirror reflectivity at grazing angle 0 is exactly 1 (the end of [0, 1])",
+                  f"raises {r0}" if r0 else f"value {_s(v0)}", s_m)
+    finally:
+        del I.stubs["xsf.index_of_refraction"]
+    ctx.floor("R3", 25)
 
 
 # ------------------------------------------------------------------------------ R4 Cromer-Mann
